@@ -195,7 +195,7 @@ func (d *driver) handle(p Pat, via string, start *xml.StartElement, typ, id stri
 	}
 	nils := 0
 	for i := 0; p.Read < 0 || i < p.Read; i++ {
-		if i > 5000 {
+		if i > 200000 {
 			inv.Runaway = true
 			break
 		}
@@ -599,6 +599,12 @@ func (j *judge) judgeElement(e *El, full []xml.Token, rec *elemRec, written []st
 		if kind == "iq" && len(e.Kids) > 0 {
 			if n := e.Fill; (n >= 2) || (n >= 1 && e.Sep != "") {
 				c.Count("iq_payload_after_two_or_more_whitespace_tokens", 1)
+			}
+		}
+		if e.Fill >= 300 && len(e.Kids) > 0 {
+			c.Count("stanzas_with_hundreds_of_tokens_before_every_payload", 1)
+			if len(x.Invoke) > 1 {
+				c.Count("large_stanzas_with_several_handlers_expected", 1)
 			}
 		}
 		if e.Fill > 0 && len(e.Kids) > 1 && (kind == "message" || kind == "presence") {
@@ -1725,7 +1731,7 @@ func Prop() *core.Prop {
 		"concurrent_scenarios", "concurrent_dispatches", "concurrent_scenarios_with_overlapping_handlers",
 		"iq_with_text_before_or_instead_of_payload_refused", "iq_payload_after_unicode_white_space_refused",
 		"stanza_with_text_only_content", "stanza_with_whitespace_only_content", "stanza_payloads_with_character_data_around",
-		"iq_payload_after_two_or_more_whitespace_tokens", "stanza_payloads_separated_by_several_whitespace_tokens",
+		"iq_payload_after_two_or_more_whitespace_tokens", "stanza_payloads_separated_by_several_whitespace_tokens", "stanzas_with_hundreds_of_tokens_before_every_payload", "large_stanzas_with_several_handlers_expected",
 		"stanzas_with_qualified_type_id_to_from_attributes", "handlers_returning_sentinel_errors", "handlers_due_after_a_handler_returned_io_EOF",
 		"staged_registration_scenarios", "staged_elements", "staged_elements_routed_differently_after_later_registration",
 		"staged_more_specific_pattern_registered_later", "iq_without_type_attribute", "empty_type_pattern_invoked_for_untyped_iq",
